@@ -36,6 +36,32 @@ def classify_key(key: str):
     return ("other", key, None)
 
 
+def drain(timeout=10.0):
+    """Wait until zarr's IO event loop has no unfinished coroutine: when a store call raises inside a
+    multi-chunk read/write, its sibling chunk operations keep running after the exception has reached
+    the caller; without this their events would be attributed to whatever is traced next."""
+    try:
+        import zarr.core.sync as zs
+
+        loop = zs.loop[0]
+    except Exception:
+        return True
+    if loop is None or not loop.is_running():
+        return True
+    t0 = time.time()
+    quiet = 0
+    while time.time() - t0 < timeout:
+        try:
+            busy = any(not t.done() for t in asyncio.all_tasks(loop))
+        except RuntimeError:
+            busy = True
+        quiet = 0 if busy else quiet + 1
+        if quiet >= 2:
+            return True
+        time.sleep(0.002)
+    return False
+
+
 class Trace:
     def __init__(self):
         self.lock = threading.Lock()
@@ -58,6 +84,7 @@ class Trace:
         self.enabled = True
 
     def stop(self):
+        drain()
         self.enabled = False
         self.injector = None
         with self.lock:
